@@ -1073,6 +1073,28 @@ func c20ECNOnlyForAdvancingAcks(c *Ctx) {
 	}
 }
 
+// C05.10: the protected header fields (reserved bits, key phase, packet-number length and bytes) are parsed only
+// after header protection was removed — the repository's stated precondition of wire.ParseShortHeader ("must be called
+// after header protection was removed") and the same for the extended long header.
+func c05ParseAfterUnprotect(c *Ctx) {
+	const R = "C05.10"
+	isDecrypt := func(i ssa.Instruction) bool {
+		ci, ok := i.(ssa.CallInstruction)
+		return ok && ci.Common().IsInvoke() && ci.Common().Method.Name() == "DecryptHeader"
+	}
+	psh := c.obj("internal/wire", "", "ParseShortHeader")
+	pe := c.obj("internal/wire", "Header", "ParseExtended")
+	for _, spec := range []struct {
+		recv, name string
+		parse     *types.Func
+	}{{"packetUnpacker", "unpackShortHeader", psh}, {"", "unpackLongHeader", pe}} {
+		f := c.fn("", spec.recv, spec.name)
+		c.Floor(R, spec.parse.Name()+" calls in "+spec.name, countInstr(f, CallsTo(spec.parse)), 1)
+		c.cut(R, "order:"+spec.name+" parses the protected header fields only after DecryptHeader", &Cut{Fn: f, Target: CallsTo(spec.parse), Barrier: isDecrypt},
+			"parsed before unprotection, the packet-number length and key phase are the masked bits: the wrong number of packet-number bytes is taken and decryption fails or, worse, succeeds under a wrong nonce")
+	}
+}
+
 // valueOf: the instruction as a value (nil if it is not one).
 func valueOf(in ssa.Instruction) ssa.Value {
 	v, _ := in.(ssa.Value)
